@@ -130,6 +130,32 @@ def gen_shared_family(rng):
     return dict(seq=seq, constraints=tuple(cs), objectives=(), cfg=cfg, np_seed=rng.randint(0, 10**6))
 
 
+def gen_outside_family(rng):
+    """the initial sequence lies outside the mutation space at positions offering several variants
+    (the constructor then picks one at random): back-translation of a protein onto a placeholder,
+    unmatched EnforceChoice, degenerate EnforceSequence"""
+    from .problems import kw
+    from .specs import rdna
+    n = rng.choice([18, 24, 30])
+    seq = rdna(rng, n)
+    cs = []
+    r = rng.random()
+    if r < 0.4:
+        prot = "".join(rng.choice("ACDEFGHIKLNPQRSTVY") for _ in range(n // 3))
+        cs.append(("EnforceTranslation", kw(location=(0, n, rng.choice([1, -1])), translation=prot)))
+    elif r < 0.7:
+        a = rng.randint(0, n - 6)
+        cs.append(("EnforceChoice", kw(choices=tuple(sorted({rdna(rng, 6) for _ in range(4)})), location=(a, a + 6, 1))))
+        cs.append(("EnforceSequence", kw(location=(0, 4, 1), sequence="".join(rng.choice("RYSWKM") for _ in range(4)))))
+    else:
+        w = "".join(rng.choice("NRYSWKMBDHV") for _ in range(n))
+        cs.append(("EnforceSequence", kw(location=(0, n, rng.choice([1, -1])), sequence=w)))
+    cs.append(("AvoidPattern", kw(pattern=rng.choice(["AA", "CG", "GC"]), location=None)))
+    cfg = dict(threshold=rng.choice([0, 50, 10000]), max_iters=40, mutations=rng.choice([1, 2]),
+               extensions=(0, 5), stagnation=None)
+    return dict(seq=seq, constraints=tuple(cs), objectives=(), cfg=cfg, np_seed=rng.randint(0, 10**6))
+
+
 def run_workers(ps, tier):
     tmp = tempfile.mkdtemp(prefix="verif_c05_")
     pfile = os.path.join(tmp, "problems.json")
@@ -170,10 +196,12 @@ def run(chk):
     chk.coverage["set_iteration_sites"] = {"found": len(sites), "audited": len(AUDITED), "unaudited": [list(s) for s in unaudited],
                                            "audited_but_absent": [list(s) for s in gone]}
     # problems
-    N = 40 if chk.tier == "quick" else 400
+    N = 60 if chk.tier == "quick" else 400
     ps = []
     while len(ps) < N // 4:
         ps.append(gen_shared_family(chk.rng))
+    while len(ps) < N // 2:
+        ps.append(gen_outside_family(chk.rng))
     while len(ps) < N:
         p = problems.gen_problem(chk.rng, with_objectives=chk.rng.random() < 0.6, allow_custom=True,
                                  custom_kinds=problems.SOUND_CUSTOM)
